@@ -107,7 +107,11 @@ def median_case(draw):
         width = draw(st.sampled_from([w for w in range(1, shape[0] + 1, 2)]))
     if mode == 'run2d':
         width = draw(st.sampled_from([w for w in range(1, min(shape) + 1, 2)]))
-    return dict(mode=mode, shape=shape, x=x, width=width, even=draw(st.booleans()), dtype=draw(st.sampled_from(['f8', 'f4'])), readonly=draw(st.sampled_from([False, False, True])))
+    dtype = draw(st.sampled_from(['f8', 'f4']))
+    if mode in ('whole', 'whole2d') and dtype == 'f8' and draw(st.integers(0, 5)) == 0:
+        # finite values of any size: the median is one of them, or the mean of two of them
+        x = [draw(st.sampled_from([1e308, -1e308, 0.0, 1.0, -1e308, 1e308])) for _ in x]
+    return dict(mode=mode, shape=shape, x=x, width=width, even=draw(st.booleans()), dtype=dtype, readonly=draw(st.sampled_from([False, False, True])))
 
 
 def median_body(case):
